@@ -2103,6 +2103,20 @@ impl<'a> Searcher<'a> {
                         _ => false,
                     }
                 }
+                VariantType::Int if value.to_float().fract() != 0.0 => {
+                    // a fractional literal cannot be compared as an integer
+                    let val = value.to_float();
+                    let float_value = field_value.to_int() as f64;
+                    match op {
+                        Op::Eq | Op::Eeq => float_value == val,
+                        Op::Ne | Op::Ene => float_value != val,
+                        Op::Gt => float_value > val,
+                        Op::Gte => float_value >= val,
+                        Op::Lt => float_value < val,
+                        Op::Lte => float_value <= val,
+                        _ => false,
+                    }
+                }
                 VariantType::Int => {
                     let val = value.to_int();
                     let int_value = field_value.to_int();
